@@ -570,6 +570,12 @@ class Gen:
             if strs:
                 return ('var', self.pick(strs).name)
         if roll < 0.4:
+            if self.chance(0.35):
+                # and / or over numbers: what is printed is a truth value, not one of the operands
+                left, right = self.num_expr(scope, 'E', 1, False), self.pick([self.num_expr(scope, 'E', 1, False), self.bool_expr(scope, 0)])
+                if self.chance(0.5):
+                    left, right = right, left
+                return ('bin', self.pick(['and', 'or']), left, right)
             return self.bool_expr(scope, 1)
         cls = 'E' if self.strict_out else 'A'
         return self.num_expr(scope, cls, 2)
